@@ -5,7 +5,7 @@ package c04
 // End-to-end exploration on the real git-lfs binary and real git.  One execution = one case:
 //   (slice, world, checked-out ref, command + ref/path arguments, location of every needed object
 //    {absent, local store, reference store}, include/exclude settings, GIT_LFS_SKIP_SMUDGE,
-//    storage layout, per-file working-tree perturbation, server endpoint {complete, lacking one object})
+//    storage layout, per-file working-tree perturbation, server fault for one object {none, batch object error (permanent / first response), storage 404, storage 500 once})
 // The remote of a world and the skip-smudge base clone of (world, ref) are built once under $VERIF_SCRATCH
 // and copied (cp -a) per case; the fake LFS server is shared (it never deletes).  Nothing is sampled: every
 // slice is a complete product of stated domains (see c.Rule / bounds.slices).
@@ -239,26 +239,45 @@ var (
 	lSubUp  = lcoVar{name: "cwd=dir:../a.bin", cwd: "dir", args: []string{"../a.bin"}, patterns: []string{"/a.bin"}}
 )
 
+// server faults concerning ONE object of the request (all other objects are served normally)
+const (
+	ftNone      = iota
+	ftBatchPerm // batch response carries an object-level error 404 for it, always
+	ftBatchOnce // object-level error 503 in the first batch response that names it, fine afterwards
+	ftGet404    // storage GET answers 404, always
+	ftGet500x1  // storage GET answers 500 once, fine afterwards
+)
+
+var faultNames = []string{"none", "batch-object-404", "batch-object-503-once", "storage-404", "storage-500-once"}
+
+func (cs *caseSpec) faultName() string {
+	if cs.fault == ftNone {
+		return "none"
+	}
+	return faultNames[cs.fault] + "@" + cs.faultOid[:8]
+}
+
 type pert struct {
 	path  string
 	state pstate
 }
 
 type caseSpec struct {
-	slice   string
-	world   int
-	cmd     cmdKind
-	head    string // ref checked out in the prepared clone ("" for clone)
-	target  string // fetch: "" = current ref; gco: the ref to check out; clone: "" = default branch, else -b <target>
-	lco     lcoVar
-	cwd     string // pull: directory the command runs in
-	filter  filterSpec
-	skip    bool
-	storage int
-	needed  []string // oids the location vector ranges over (sorted)
-	loc     []int    // 0 absent, 1 local store, 2 reference store
-	perturb []pert
-	lacking bool // lfs.url points at the endpoint that lacks one object
+	slice    string
+	world    int
+	cmd      cmdKind
+	head     string // ref checked out in the prepared clone ("" for clone)
+	target   string // fetch: "" = current ref; gco: the ref to check out; clone: "" = default branch, else -b <target>
+	lco      lcoVar
+	cwd      string // pull: directory the command runs in
+	filter   filterSpec
+	skip     bool
+	storage  int
+	needed   []string // oids the location vector ranges over (sorted)
+	loc      []int    // 0 absent, 1 local store, 2 reference store
+	perturb  []pert
+	fault    int    // server fault for one object (faultNames)
+	faultOid string // the object the fault concerns
 }
 
 func (cs *caseSpec) id() string {
@@ -270,8 +289,8 @@ func (cs *caseSpec) id() string {
 	for i, l := range cs.loc {
 		loc[i] = byte('0' + l)
 	}
-	return fmt.Sprintf("%s|w%d|%s|head=%s|target=%s|lco=%s|cwd=%s|f=%s|skip=%v|st=%s|loc=%s|%s|lack=%v", cs.slice, cs.world, cmdNames[cs.cmd], cs.head, cs.target,
-		cs.lco.name, cs.cwd, cs.filter.name, cs.skip, storageNames[cs.storage], loc, strings.Join(pp, ","), cs.lacking)
+	return fmt.Sprintf("%s|w%d|%s|head=%s|target=%s|lco=%s|cwd=%s|f=%s|skip=%v|st=%s|loc=%s|%s|fault=%s", cs.slice, cs.world, cmdNames[cs.cmd], cs.head, cs.target,
+		cs.lco.name, cs.cwd, cs.filter.name, cs.skip, storageNames[cs.storage], loc, strings.Join(pp, ","), cs.faultName())
 }
 
 func (cs *caseSpec) trivial() bool {
@@ -285,7 +304,7 @@ func (cs *caseSpec) trivial() bool {
 			return false
 		}
 	}
-	return cs.filter.name == "none" && !cs.skip && cs.storage == stDefault && !cs.lacking && cs.lco.name == "(none)" && cs.cwd == ""
+	return cs.filter.name == "none" && !cs.skip && cs.storage == stDefault && cs.fault == ftNone && cs.lco.name == "(none)" && cs.cwd == ""
 }
 
 func (cs *caseSpec) state(p string) pstate {
@@ -494,7 +513,9 @@ func makePlan(defs []*worldDef, thorough bool) *plan {
 			}
 			cs.loc = maskLoc(presets[in(len(presets))].mask(t, cs.needed), len(cs.needed), 1)
 			cs.filter = filters[in(len(filters))]
-			cs.lacking = lack[in(len(lack))]
+			if lack[in(len(lack))] {
+				cs.fault, cs.faultOid = ftBatchPerm, gitx.Oid(t["a.bin"])
+			}
 			return cs
 		}
 	}
@@ -529,6 +550,54 @@ func makePlan(defs []*worldDef, thorough bool) *plan {
 		cs.filter = fNone
 		return cs
 	})
+	// ---- per-object transfer failures during clone / git checkout (delayed smudge through filter-process) and pull:
+	// fault kind x which of the needed objects it hits x (thorough) every subset already local x filter
+	faultKinds := []int{ftBatchPerm, ftBatchOnce, ftGet404, ftGet500x1}
+	for wi, d := range defs {
+		wi, d := wi, d
+		if !thorough && wi != 0 {
+			continue
+		}
+		type hc struct {
+			cmd          cmdKind
+			head, target string
+		}
+		var hcs []hc
+		for _, r := range d.refs {
+			t := ""
+			if r != "main" {
+				t = r
+			}
+			hcs = append(hcs, hc{cClone, "", t})
+			hcs = append(hcs, hc{cPull, r, ""})
+			for _, r2 := range d.refs {
+				if r2 != r {
+					hcs = append(hcs, hc{cGco, r, r2})
+				}
+			}
+		}
+		add("faults/"+d.name, func(in chooser) *caseSpec {
+			h := hcs[in(len(hcs))]
+			cs := &caseSpec{world: wi, cmd: h.cmd, head: h.head, target: h.target, lco: lAll}
+			cs.needed = cs.tree(defs).neededOids()
+			cs.fault = faultKinds[in(len(faultKinds))]
+			cs.faultOid = cs.needed[in(len(cs.needed))]
+			mask := 0
+			if thorough && cs.cmd != cClone {
+				mask = in(1 << len(cs.needed))
+			}
+			cs.loc = maskLoc(mask, len(cs.needed), 1)
+			cs.filter = fNone
+			if thorough {
+				if cs.cmd == cPull {
+					cs.filter = []filterSpec{fNone, fXb}[in(2)]
+				} else {
+					cs.filter = []filterSpec{fNone, gXb}[in(2)]
+				}
+			}
+			return cs
+		})
+	}
 	// ---- storage layouts (world "linear" at main): lfs.storage and a reference (alternates) store
 	stCmds := []cmdKind{cFetch, cPull, cLco}
 	nAlt := 1 // selections per command: none; thorough adds -X b.bin / path argument a.bin
@@ -769,8 +838,8 @@ func (ev *env) execCase(cs *caseSpec) (res vx.Result) {
 		}
 	}
 	url := ev.srv.URL + "/full"
-	if cs.lacking {
-		url = ev.srv.URL + "/lacking"
+	if cs.fault != ftNone {
+		url = fmt.Sprintf("%s/x/%s-%s-%d", ev.srv.URL, faultNames[cs.fault], cs.faultOid, n)
 	}
 	cfgLines := []string{"url = " + url}
 	if cs.filter.cfgI != nil {
@@ -788,6 +857,10 @@ func (ev *env) execCase(cs *caseSpec) (res vx.Result) {
 			panic(err)
 		}
 		fmt.Fprintf(f, "[lfs]\n\t%s\n", strings.Join(cfgLines, "\n\t"))
+		if cs.fault != ftNone {
+			// keep the (real-time) retry back-off of a permanently failing object short: 3 tries, <= 1 s apart
+			fmt.Fprintf(f, "[lfs \"transfer\"]\n\tmaxretries = 3\n\tmaxretrydelay = 1\n")
+		}
 		f.Close()
 	}
 	// ---- perturb the working tree
@@ -840,6 +913,7 @@ func (ev *env) execCase(cs *caseSpec) (res vx.Result) {
 	lfsbin := filepath.Join(ev.gw.BinDir, "git-lfs")
 	var r gitx.Res
 	var shown string
+	t0 := time.Now()
 	switch cs.cmd {
 	case cFetch:
 		args := append([]string{"fetch"}, cs.filter.cliArgs()...)
@@ -862,6 +936,9 @@ func (ev *env) execCase(cs *caseSpec) (res vx.Result) {
 			kv := strings.SplitN(l, " = ", 2)
 			args = append(args, "-c", "lfs."+kv[0]+"="+strings.Trim(kv[1], "\""))
 		}
+		if cs.fault != ftNone {
+			args = append(args, "-c", "lfs.transfer.maxretries=3", "-c", "lfs.transfer.maxretrydelay=1")
+		}
 		if useRef {
 			args = append(args, "--reference", refrepo)
 		}
@@ -874,6 +951,9 @@ func (ev *env) execCase(cs *caseSpec) (res vx.Result) {
 	case cGco:
 		shown = "git checkout -q " + cs.target
 		r = ev.git(local, envx, "checkout", "-q", cs.target)
+	}
+	if os.Getenv("VERIF_C04_TIMING") != "" {
+		fmt.Fprintf(os.Stderr, "TIMING %.1fs %s\n", time.Since(t0).Seconds(), cs.id())
 	}
 	if r.TimedOut {
 		res.Inconcl = cmdName + " timeout"
@@ -924,6 +1004,10 @@ func (ev *env) execCase(cs *caseSpec) (res vx.Result) {
 			return allows(cfgInc, cfgExc, p)
 		}
 		return allows(inc, exc, p)
+	}
+	faultTag := ""
+	if cs.fault != ftNone {
+		faultTag = ",fault=" + faultNames[cs.fault]
 	}
 	cwdClass := "cwd=root"
 	if cs.cwd != "" || cs.lco.cwd != "" {
@@ -976,12 +1060,25 @@ func (ev *env) execCase(cs *caseSpec) (res vx.Result) {
 				hd, had := headTree[p]
 				fresh = !had || gitx.Oid(hd) != oid
 			}
-			if !ok {
-				cnt("unsuccessful." + cmdName)
-				continue
-			}
 			if !fresh {
 				cnt("gco.path-unchanged-between-refs(not-judged)")
+				continue
+			}
+			// whatever the exit status: a path Git wrote holds the object bytes or a valid pointer for that oid (or, after a
+			// failure, nothing / its previous bytes), never anything else (empty, truncated, another object)
+			if _, wt := postWT[".gitattributes"]; wt || ok {
+				good := ac == "orig" || ac == "ptr" || (len(D) == 0 && postOK && post.Sha == shaD)
+				if !ok && (ac == "absent" || unchanged) {
+					good = true
+				}
+				if !good {
+					viol("C04:wrong-bytes:"+cmdName+":"+selName+faultTag, fmt.Sprintf("%s (exit %d) left %s as %s (%s): neither the object bytes nor a valid pointer for its oid", cmdName, r.Code, p, ac, describeEntry(post, postOK)))
+					continue
+				}
+				cnt("E." + cmdName + ".content-or-pointer")
+			}
+			if !ok {
+				cnt("unsuccessful." + cmdName)
 				continue
 			}
 			if !cs.skip && sel {
@@ -1036,7 +1133,7 @@ func (ev *env) execCase(cs *caseSpec) (res vx.Result) {
 				}
 				if !ok {
 					if !(ac == "orig" || ac == "ptr" || unchanged) {
-						cnt("failed-command-left-" + cl + "-file-as-" + ac)
+						viol("C04:wrong-bytes:"+cmdName+":"+selName+faultTag, fmt.Sprintf("%s failed (exit %d) and left %s (%s before) as %s (%s): neither the object bytes nor a valid pointer", shown, r.Code, p, stName, ac, describeEntry(post, postOK)))
 					} else {
 						cnt("failed-command." + cl + "-file-" + ac)
 					}
@@ -1057,7 +1154,7 @@ func (ev *env) execCase(cs *caseSpec) (res vx.Result) {
 					} else if ac == "ptr" || unchanged {
 						cnt("lco-left-path-excluded-by-lfs.fetchexclude(tolerated)")
 					} else {
-						viol("C04:wrong-bytes:"+cmdName+":"+selName, fmt.Sprintf("%s left %s (%s before) as %s: neither the object bytes nor a pointer", shown, p, stName, ac))
+						viol("C04:wrong-bytes:"+cmdName+":"+selName+faultTag, fmt.Sprintf("%s left %s (%s before) as %s: neither the object bytes nor a pointer", shown, p, stName, ac))
 					}
 				default: // not selected, or (lfs checkout) object not available
 					why := "not-selected"
@@ -1072,7 +1169,7 @@ func (ev *env) execCase(cs *caseSpec) (res vx.Result) {
 					case ac == "orig":
 						viol("C04:excluded-not-pointer:"+cmdName+":"+selName, fmt.Sprintf("%s materialised %s although it is not selected (%s)", shown, p, selName))
 					default:
-						viol("C04:wrong-bytes:"+cmdName+":"+selName, fmt.Sprintf("%s left %s (%s before) as %s: neither the object bytes nor a pointer", shown, p, stName, ac))
+						viol("C04:wrong-bytes:"+cmdName+":"+selName+faultTag, fmt.Sprintf("%s left %s (%s before) as %s: neither the object bytes nor a pointer", shown, p, stName, ac))
 					}
 				}
 			}
@@ -1239,6 +1336,16 @@ func copyTree(src, dst string) {
 	}
 }
 
+func describeEntry(e gitx.TreeEntry, ok bool) string {
+	if !ok {
+		return "absent"
+	}
+	if e.Sha == gitx.Oid(nil) {
+		return "0 bytes"
+	}
+	return "sha256 " + e.Sha[:12] + " mode " + e.Mode
+}
+
 func tail(s string) string {
 	if len(s) > 1500 {
 		return "..." + s[len(s)-1500:]
@@ -1265,7 +1372,7 @@ func TestVerifC04(t *testing.T) {
 	srv.Put(cX)
 	defs := worlds()
 	ev := &env{gw: gw, srv: srv, defs: defs, built: map[int]*builtWorldEntry{}, bases: map[baseKey]*baseEntry{}, root: gw.Root,
-		cases: filepath.Join(gw.Root, "cases"), lackOid: gitx.Oid(cA2)}
+		cases: filepath.Join(gw.Root, "cases"), faults: map[string]int{}}
 	os.MkdirAll(ev.cases, 0755)
 	if ev.gitPath, err = exec.LookPath("git"); err != nil {
 		fmt.Println("TOOL-ERROR git not found:", err)
@@ -1326,10 +1433,10 @@ func TestVerifC04(t *testing.T) {
 	c.Bounds["max_distinct_objects_per_tree"] = 3
 	c.Rule = "one case = (slice, world, checked-out ref, command with its ref/path arguments, location of every object the relevant tree needs {absent, local, reference store}, " +
 		"include/exclude settings (-I/-X, lfs.fetchinclude/lfs.fetchexclude, path arguments of lfs checkout), GIT_LFS_SKIP_SMUDGE, storage layout {default, lfs.storage, clone --reference}, " +
-		"per-file working-tree perturbation, endpoint {complete, lacking the object of a.bin}); the explored set is a union of COMPLETE products (slices; sizes under bounds.slices): " +
+		"per-file working-tree perturbation, server fault for one object {none, object-level 404 in every batch response, object-level 503 in the first batch response, storage GET 404, storage GET 500 once}); the explored set is a union of COMPLETE products (slices; sizes under bounds.slices): " +
 		"fetch/* = (ref checked out, ref argument) x every subset of needed objects already local x filters; filter-sources/* = {fetch, pull} x store subsets x the source of the include list {none, -I, lfs.fetchinclude, -I over another configured value} x the same four sources of the exclude list; pull/* = ref x subsets x filters x skip-smudge; " +
 		"pull-perturb2, lco-perturb2 = every ordered pair of perturbation states on two files x store presets x filters / path arguments; *-perturb1* = every state of one file x store presets {none, all, only that object, all but it} x filters x endpoint / invocation variants of lfs checkout (incl. from a sub-directory); " +
-		"storage-* = {fetch, pull, lfs checkout} x every location vector (3^3 with a reference store, 2^3 with lfs.storage) x 2 selections; clone/*, clone-reference, git-checkout/* = branch or (from,to) pair x subsets x configured filters x skip-smudge.  " +
+		"faults/* = {clone [-b], pull, git checkout (from,to)} x 4 fault kinds x which needed object is hit (thorough: x every subset already local x 2 filters); storage-* = {fetch, pull, lfs checkout} x every location vector (3^3 with a reference store, 2^3 with lfs.storage) x 2 selections; clone/*, clone-reference, git-checkout/* = branch or (from,to) pair x subsets x configured filters x skip-smudge.  " +
 		"distinct_nontrivial = distinct cases other than the plain one (empty local store, no filter, no perturbation, default storage, no skip)"
 	c.Assumptions = []string{
 		"'the pointer recorded for it': a working-tree file counts as the recorded pointer iff it is smaller than 1024 bytes and decodes (docs/spec.md, incl. accepted non-canonical forms: CRLF, legacy version URL, ext lines, surrounding whitespace, any mode) to the oid AND size of the pointer blob at that path in HEAD (index == HEAD for every LFS path except under 'deleted-staged'); every other existing file (user text, >=1024-byte padding of the pointer, the object bytes, other/ghost pointers, undecodable near-pointers, the same oid with another size, empty file, read-only or executable edits, plain and untracked files) must be byte-, mode- and type-identical after `git lfs pull` / `git lfs checkout`, whatever the exit status",
@@ -1342,13 +1449,13 @@ func TestVerifC04(t *testing.T) {
 		"git checkout <ref>: only paths whose blob differs between the two refs are written by Git and judged; git clone: every path",
 		"'valid pointer' after the command = the canonical pointer text of the recorded oid/size, or the unchanged previous bytes",
 		"'successful' = exit status 0; after a failed command only the non-clobbering clause is judged; store clause for pull skips paths deleted in the index",
-		"the local store starts intact: it holds exactly the stated subset of valid objects; the fake server is complete except on the 'lacking' endpoint; linear and one-merge histories, <=5 LFS files, <=3 distinct objects per tree; git 2.39.5 (ls-tree code path of ScanLFSFiles); subprocess timeout 90 s is a tool guard (=> inconclusive)",
+		"the local store starts intact: it holds exactly the stated subset of valid objects; the fake server is complete; a fault concerns exactly one object of one case (per-case endpoint URL, deterministic counters, no timing; fault cases run with lfs.transfer.maxretries=3 and lfs.transfer.maxretrydelay=1 so that a permanently failing object costs seconds, not minutes); linear and one-merge histories, <=5 LFS files, <=3 distinct objects per tree; git 2.39.5 (ls-tree code path of ScanLFSFiles); subprocess timeout 90 s is a tool guard (=> inconclusive)",
 	}
 	workers := 2 * runtime.NumCPU()
 	if n, err := strconv.Atoi(os.Getenv("VERIF_C04_WORKERS")); err == nil && n > 0 {
 		workers = n
 	}
-	e := &vx.Explorer{Name: "C04", Workers: workers, BoundEnv: 0, BoundSch: 0, BoundSum: -1, Run: ev.run, Deadline: c.DeadlineAfter(150*time.Second, 23*time.Minute)}
+	e := &vx.Explorer{Name: "C04", Workers: workers, BoundEnv: 0, BoundSch: 0, BoundSum: -1, Run: ev.run, Deadline: c.DeadlineAfter(300*time.Second, 23*time.Minute)}
 	st := e.Explore()
 	extra := map[string]interface{}{"planned_cases": total, "base_clones_built": len(ev.bases), "worlds_built": len(ev.built)}
 	finish(c.Finish([]vx.Part{{Scenario: "e2e", Stats: st, Exec: exec}}, extra))
